@@ -36,6 +36,12 @@ pub struct Recording {
 
 /// 0..4 transmissions, lossy or not, close-cut or padded
 fn gen_recording(rng: &mut Rng, rate: u32, ntx: usize) -> Recording {
+    gen_recording_with(rng, rate, ntx, None)
+}
+
+/// `last`: header mask, trailer mask and close-cut flag forced on the last transmission (directed cases: a
+/// message that only completes at end of input, with and without a child attached at that moment)
+fn gen_recording_with(rng: &mut Rng, rate: u32, ntx: usize, last: Option<(u8, u8, bool)>) -> Recording {
     let mut line = Line::clean(rate);
     line.amplitude = 2000.0 + rng.unit() * 20000.0;
     line.dc = (rng.unit() - 0.5) * 500.0;
@@ -46,11 +52,12 @@ fn gen_recording(rng: &mut Rng, rate: u32, ntx: usize) -> Recording {
     for t in 0..ntx {
         let kind = rng.below(5);
         let h = gen_header_any(rng).text().into_bytes();
-        let (hm, tm) = match kind {
-            0 => (7u8, 7u8),
-            1 => (6, 7),  // third header burst lost
-            2 => (7, 0),  // no trailer: next header follows directly (or end of file)
-            3 => (3, 7),  // first header burst lost
+        let (hm, tm) = match (kind, last) {
+            (_, Some((hm, tm, _))) if t + 1 == ntx => (hm, tm),
+            (0, _) => (7u8, 7u8),
+            (1, _) => (6, 7),  // third header burst lost
+            (2, _) => (7, 0),  // no trailer: next header follows directly (or end of file)
+            (3, _) => (3, 7),  // first header burst lost
             _ => (7, 5),
         };
         label.push_str(&format!(".h{:03b}t{:03b}", hm, tm));
@@ -66,13 +73,15 @@ fn gen_recording(rng: &mut Rng, rate: u32, ntx: usize) -> Recording {
         }
         if tm != 0 {
             a.silence(1.6 + rng.unit() * 2.0, rng);
-            for k in 0..3 {
+            // trailing absent bursts are not padded with silence: the recording may end with the last one sent
+            let last_sent = (0..3).rev().find(|k| tm & (4 >> k) != 0).unwrap_or(0);
+            for k in 0..=last_sent {
                 if tm & (4 >> k) != 0 {
                     a.burst(16, b"NNNN", rng);
                 } else {
                     a.silence(8.0 * 20.0 / BAUD, rng);
                 }
-                if k < 2 {
+                if k < last_sent {
                     a.silence(1.0, rng);
                 }
             }
@@ -82,7 +91,10 @@ fn gen_recording(rng: &mut Rng, rate: u32, ntx: usize) -> Recording {
         }
     }
     // close-cut (ends with the last burst) or padded
-    let close_cut = rng.chance(1, 2);
+    let close_cut = match last {
+        Some((_, _, c)) => c,
+        None => rng.chance(1, 2),
+    };
     if !close_cut {
         a.silence(0.5 + rng.unit() * 3.0, rng);
     }
@@ -283,7 +295,11 @@ pub fn run_app(ctx: &Ctx) {
     for i in 0..n {
         let rate = *rng.pick(&[8000u32, 11025, 22050, 22050, 44100, 48000]);
         let ntx = if i < 5 { i } else { rng.range(0, 4) as usize };
-        let rec = gen_recording(&mut rng, rate, ntx);
+        // cases 8..15 are directed: the last message only completes at end of input (header without trailer, or
+        // a single trailer burst, cut on the last sample), alternately without and with a child attached
+        let directed: Option<(u8, u8, bool)> = if (8..16).contains(&i) { Some([(7u8, 0u8, true), (7, 4, true), (6, 0, true), (3, 4, true)][(i - 8) / 2]) } else { None };
+        let ntx = if directed.is_some() { ntx.max(1) } else { ntx };
+        let rec = gen_recording_with(&mut rng, rate, ntx, directed);
         let raw = dir.join(format!("rec{}.raw", i));
         write_raw(&raw, &rec);
         let (live, flushed) = reference(&rec);
@@ -446,7 +462,10 @@ pub fn run_fault(ctx: &Ctx) {
         line.amplitude = 8000.0;
         let mut a = Audio::new(line);
         a.silence(0.3, &mut rng);
-        for _ in 0..nmsg {
+        // every other recording is cut on the last sample of the last message's FIRST trailer burst: that
+        // EndOfMessage only comes out when the decoder is flushed at end of input, with the child still attached
+        let close_cut = r % 2 == 1;
+        for m in 0..nmsg {
             let h = gen_header_any(&mut rng).text().into_bytes();
             for k in 0..3 {
                 a.burst(16, &h, &mut rng);
@@ -455,6 +474,12 @@ pub fn run_fault(ctx: &Ctx) {
                 }
             }
             a.silence(2.0, &mut rng);
+            if close_cut && m + 1 == nmsg {
+                // (a lone trailer burst is an EndOfMessage only when the header bursts have left the history)
+                a.silence(10.5, &mut rng);
+                a.burst(16, b"NNNN", &mut rng);
+                break;
+            }
             for k in 0..3 {
                 a.burst(16, b"NNNN", &mut rng);
                 if k < 2 {
@@ -463,7 +488,7 @@ pub fn run_fault(ctx: &Ctx) {
             }
             a.silence(1.5, &mut rng);
         }
-        let rec = Recording { rate, pcm: a.samples.iter().map(|x| x.round() as i16).collect(), label: format!("fault{}", r), odd_byte: false };
+        let rec = Recording { rate, pcm: a.samples.iter().map(|x| x.round() as i16).collect(), label: format!("fault{}{}", r, if close_cut { ".closecut" } else { "" }), odd_byte: false };
         let raw = dir.join(format!("fault{}.raw", r));
         write_raw(&raw, &rec);
         let base: Vec<String> = vec!["--rate".into(), rate.to_string(), "--file".into(), raw.to_string_lossy().into_owned()];
